@@ -12,6 +12,7 @@
 //
 //   D1  all strings of length 0..5 (quick) / 0..6 (thorough) over the 22 class representatives
 //          a g v 0 1 2 5 6 9 . : / ? # [ ] @ % ! - + SPACE            x all five rules
+//   D1r all strings of length 6 (quick) / 7 (thorough) over the reduced 16  a g v 0 1 . : / ? # [ ] @ % - +
 //   D2a dotted octet patterns: 1..5 slots joined by ".", each slot one of the 16 values
 //          (empty) 0 9 10 99 100 199 200 249 250 255 256 260 00 01 1a     (1 118 480 strings)
 //   D2b all strings of <= 7 (quick) / <= 8 (thorough) tokens over { 0 1 25 255 256 01 a . }
@@ -20,11 +21,13 @@
 //          | IPv6address "::"s | URI_reference "//[::"s"]"
 //   D3  all strings of <= 8 (quick) / <= 9 (thorough) tokens over the 9 IPv6 tokens
 //          1  abcd  12345  :  ::  1.2.3.4  255.255.255.255  1.2.3.256  1:
-//       (8 tokens reach the full 8-group form 1:1:1:1:1:1:1:1 and every "::" alternative);
-//       contexts: IPv6address s | URI_reference "//["s"]" | (thorough) URI "a://["s"]:8/"
+//       against IPv6address (8 tokens reach the full form 1:1:1:1:1:1:1:1 and every "::" alternative)
+//   D3b all strings of <= 7 (quick) / <= 8 (thorough) of the same tokens as URI_reference "//["s"]"
+//       and (thorough) URI "a://["s"]:8/"      (shorter: almost every case ends in a thrown parse_error)
 //   D4  all single edits (delete a byte, replace a byte by / insert at every position each of the
 //       30 edit bytes) of a corpus of valid URIs, references and address literals taken from
-//       RFC 3986 sections 1.1.2, 3, 5.4 and 6.2 (+ one literal per IPv6address alternative) x all five rules
+//       RFC 3986 sections 1.1.2, 3, 5.4 and 6.2 (+ one literal per IPv6address alternative) x all five rules;
+//       thorough: additionally all double edits of the corpus entries of length <= 12
 //
 // Each library run uses an exact-size malloc'ed buffer without terminator.  A second run uses the
 // same bytes followed by a poison tail ("1111" + NULs) that lies OUTSIDE [begin,end): a correct
@@ -377,6 +380,32 @@ namespace
 
 }  // namespace
 
+// all single byte edits of d over the edit bytes E: delete, replace, insert
+static void single_edits( const std::string& d, const std::string& E, std::vector< std::string >& out )
+{
+   std::string t;
+   for( std::size_t i = 0; i < d.size(); ++i ) {
+      t = d;
+      t.erase( i, 1 );
+      out.push_back( t );
+   }
+   for( std::size_t i = 0; i < d.size(); ++i ) {
+      for( char c : E ) {
+         if( d[ i ] == c ) continue;
+         t = d;
+         t[ i ] = c;
+         out.push_back( t );
+      }
+   }
+   for( std::size_t i = 0; i <= d.size(); ++i ) {
+      for( char c : E ) {
+         t = d;
+         t.insert( i, 1, c );
+         out.push_back( t );
+      }
+   }
+}
+
 int main( int argc, char** argv )
 {
    vf::parse_args( argc, argv );
@@ -392,13 +421,16 @@ int main( int argc, char** argv )
 
    // ---- D1 ------------------------------------------------------------------------------------
    {
-      std::vector< std::string > A;
+      std::vector< std::string > A, B;
       for( const char* p = "agv012569.:/?#[]@%!-+ "; *p; ++p ) A.push_back( std::string( 1, *p ) );
+      for( const char* p = "agv01.:/?#[]@%-+"; *p; ++p ) B.push_back( std::string( 1, *p ) );
       const int L = T ? 6 : 5;
       for( int len = 0; ok && len <= L; ++len ) {
          ok = for_each_token_string( A, len, [ & ]( const std::string& s ) { check_string( s, ALL ); } );
       }
       domain_done( "D1", ok );
+      if( ok ) ok = for_each_token_string( B, L + 1, [ & ]( const std::string& s ) { check_string( s, ALL ); } );
+      domain_done( "D1r", ok );
    }
 
    const std::vector< Context > cx4 = {
@@ -447,60 +479,53 @@ int main( int argc, char** argv )
 
    // ---- D3 ------------------------------------------------------------------------------------
    if( ok ) {
-      std::vector< Context > cx6 = {
-         { uriref::R_IPv6address, "", "" },
-         { uriref::R_URI_reference, "//[", "]" },
-      };
-      if( T ) cx6.push_back( { uriref::R_URI, "a://[", "]:8/" } );
+      const std::vector< Context > direct = { { uriref::R_IPv6address, "", "" } };
+      std::vector< Context > bracket = { { uriref::R_URI_reference, "//[", "]" } };
+      if( T ) bracket.push_back( { uriref::R_URI, "a://[", "]:8/" } );
       const std::vector< std::string > tok = { "1", "abcd", "12345", ":", "::", "1.2.3.4", "255.255.255.255", "1.2.3.256", "1:" };
-      const int L = T ? 9 : 8;
-      for( int len = 1; ok && len <= L; ++len ) {
-         ok = for_each_token_string( tok, len, [ & ]( const std::string& s ) { run_contexts( s, cx6 ); } );
+      const int Ld = T ? 9 : 8;  // IPv6address itself
+      const int Lb = T ? 8 : 7;   // inside "[" "]" (nearly every such case ends in a thrown parse_error, which is ~10x slower)
+      for( int len = 1; ok && len <= Ld; ++len ) {
+         ok = for_each_token_string( tok, len, [ & ]( const std::string& s ) { run_contexts( s, direct ); } );
       }
       domain_done( "D3", ok );
+      for( int len = 0; ok && len <= Lb; ++len ) {
+         ok = for_each_token_string( tok, len, [ & ]( const std::string& s ) { run_contexts( s, bracket ); } );
+      }
+      domain_done( "D3b", ok );
    }
 
    // ---- D4 ------------------------------------------------------------------------------------
    if( ok ) {
       std::string E = "agv012569.:/?#[]@%!-+ ";
-      E += "VF~=";
+      E += "VF~=_&";
       E += '\x80';
       E += '\0';
-      E += "_&";
       const unsigned long long ns = vf::args.nshards;
-      std::string t;
+      auto mine = [ & ]() { return ( g_base++ % ns ) == (unsigned long long)vf::args.shard; };
+      std::vector< std::string > e1, e2;
       for( const std::string& d : corpus() ) {
          if( !ok ) break;
-         auto mine = [ & ]() { return ( g_base++ % ns ) == (unsigned long long)vf::args.shard; };
-         if( mine() ) {
-            check_string( d, ALL );
-            // the corpus itself must be derivable from at least one rule
-            M.load( d.data(), d.size() );
-            bool any = false;
-            for( int r = 0; r < uriref::R_count; ++r ) any |= M.derivable( r );
-            if( !any ) vf::count( "corpus_entry_not_derivable" );
+         // every corpus entry must itself be derivable from at least one of the five productions
+         M.load( d.data(), d.size() );
+         bool any = false;
+         for( int r = 0; r < uriref::R_count; ++r ) any |= M.derivable( r );
+         if( !any ) vf::count( "corpus_entry_not_derivable" );
+         if( mine() ) check_string( d, ALL );
+         e1.clear();
+         single_edits( d, E, e1 );
+         for( const auto& t : e1 ) {
+            if( mine() ) check_string( t, ALL );
          }
-         for( std::size_t i = 0; i < d.size(); ++i ) {  // delete
-            if( !mine() ) continue;
-            t = d;
-            t.erase( i, 1 );
-            check_string( t, ALL );
-         }
-         for( std::size_t i = 0; i < d.size(); ++i ) {  // replace
-            for( char c : E ) {
-               if( !mine() ) continue;
-               if( d[ i ] == c ) continue;
-               t = d;
-               t[ i ] = c;
-               check_string( t, ALL );
-            }
-         }
-         for( std::size_t i = 0; i <= d.size(); ++i ) {  // insert
-            for( char c : E ) {
-               if( !mine() ) continue;
-               t = d;
-               t.insert( i, 1, c );
-               check_string( t, ALL );
+         if( T && d.size() <= 12 ) {  // thorough: all double edits of the short entries
+            for( const auto& t : e1 ) {
+               e2.clear();
+               single_edits( t, E, e2 );
+               for( const auto& u : e2 ) {
+                  if( mine() ) check_string( u, ALL );
+               }
+               if( vf::out_of_time() ) ok = false;
+               if( !ok ) break;
             }
          }
          if( vf::out_of_time() ) ok = false;
@@ -508,10 +533,13 @@ int main( int argc, char** argv )
       domain_done( "D4", ok );
    }
 
-   std::string note = T ? "thorough: D1 all strings len<=6 over 22 class representatives x 5 rules; D2a 1..5 dotted slots of 16 octet tokens x 6 contexts; D2b <=8 tokens over {0 1 25 255 256 01 a .} x 6 contexts; "
-                     "D3 <=9 tokens over 9 IPv6 tokens x 3 contexts; D4 all single byte edits (30 edit bytes) of 87 RFC 3986 corpus strings x 5 rules; every run also repeated with a poison tail behind the input"
-                   : "quick: D1 all strings len<=5 over 22 class representatives x 5 rules; D2a 1..5 dotted slots of 16 octet tokens x 6 contexts; D2b <=7 tokens over {0 1 25 255 256 01 a .} x 6 contexts; "
-                     "D3 <=8 tokens over 9 IPv6 tokens {1 abcd 12345 : :: 1.2.3.4 255.255.255.255 1.2.3.256 1:} x 2 contexts; D4 all single byte edits (30 edit bytes) of 87 RFC 3986 corpus strings x 5 rules; every run also repeated with a poison tail behind the input";
+   const std::string nc = std::to_string( corpus().size() );
+   std::string note = T ? "thorough: D1 all strings len<=6 over 22 class representatives [agv012569.:/?#[]@%!-+ SP] + len 7 over the 16 [agv01.:/?#[]@%-+], x 5 rules; D2a 1..5 dotted slots of 16 octet tokens x 6 contexts; "
+                          "D2b <=8 tokens over {0 1 25 255 256 01 a .} x 6 contexts; D3 <=9 tokens over 9 IPv6 tokens {1 abcd 12345 : :: 1.2.3.4 255.255.255.255 1.2.3.256 1:} as IPv6address, D3b <=8 tokens inside //[..] and a://[..]:8/; "
+                          "D4 all single byte edits (30 edit bytes) of " + nc + " RFC 3986 corpus strings and all double edits of those of length<=12, x 5 rules; every library run repeated with a poison tail behind the input"
+                        : "quick: D1 all strings len<=5 over 22 class representatives [agv012569.:/?#[]@%!-+ SP] + len 6 over the 16 [agv01.:/?#[]@%-+], x 5 rules; D2a 1..5 dotted slots of 16 octet tokens x 6 contexts; "
+                          "D2b <=7 tokens over {0 1 25 255 256 01 a .} x 6 contexts; D3 <=8 tokens over 9 IPv6 tokens {1 abcd 12345 : :: 1.2.3.4 255.255.255.255 1.2.3.256 1:} as IPv6address, D3b <=7 tokens inside //[..]; "
+                          "D4 all single byte edits (30 edit bytes) of " + nc + " RFC 3986 corpus strings x 5 rules; every library run repeated with a poison tail behind the input";
    vf::st.note = note + "; this shard:" + g_domain_note;
    vf::count( "ref_accept", c_ref_accept );
    vf::count( "ref_reject", c_ref_reject );
